@@ -307,7 +307,8 @@ def run(ctx, rep):
     rep.require("C17.h", "extend/entry-pushes", len(ent_push) >= 1, where=EXT.loc(), what="IndexCollector::extend pushes one entry per listed blob")
     imuts = [(cb, ct) for cb, ct in EXT.calls() if "callee" in ct and re.search(r"IndexMut<K> for enum_map::EnumMap<K, V>>::index_mut$|Index<K> for enum_map::EnumMap<K, V>>::index$", callee(ct))]
     back_ = C.back_edges(EXT)
-    for n_, (bb, t) in enumerate(ent_push, 1):
+    for (bb, t) in ent_push:
+        n_ = "full-entries" if "SortedEntry" in json_of(t) else "ids-only"
         # the EnumMap indexing that selects the bucket of this push: the closest one in front of it
         others = {cb for cb, _ in imuts}
         sel = [(cb, ct) for cb, ct in imuts if bb in EXT.reachable_from(cb, cut_blocks=others - {cb}, cut_edges=back_)]
